@@ -100,6 +100,15 @@ def sigStep0 (d : DS) : List String → DS × List String
     match d.s.disp (nat! g) with
     | .dflt => (d, ["raise skipped-default"] ++ obs d)
     | _ => let d := { d with s := deliver d.s (nat! g) }; (d, ["raised"] ++ obs d)
+  | ["nestraise", a, b] =>
+    if !sigs.contains (nat! a) || !sigs.contains (nat! b) || nat! a = nat! b then (d, ["bad-op"]) else
+    match d.s.disp (nat! a), d.s.disp (nat! b) with
+    | .dflt, _ => (d, ["raise skipped-default"] ++ obs d)
+    | _, .dflt => (d, ["raise skipped-default"] ++ obs d)
+    | _, _ =>
+      -- B stays pending while A's handler runs with all signals blocked, and is handled right after it
+      let d := { d with s := deliver (deliver d.s (nat! a)) (nat! b) }
+      (d, ["raised 2"] ++ obs d)
   | ["burst", g, n] =>
     if !sigs.contains (nat! g) || n.toNat?.isNone then (d, ["bad-op"]) else
     let (d, k) := burstN (nat! g) (nat! n) d 0
